@@ -324,9 +324,7 @@ func execC05a(ctx *Ctx, in *Input) *Result {
 				leadingNeg = true
 			}
 			for sym, want := range row {
-				if sym == 0 {
-					continue // the augmented start symbol's column is never consulted
-				}
+				// column 0 (the augmented start symbol) is consulted too: translate maps every unknown token code to symbol 0
 				got := func() (g int) {
 					defer func() {
 						if e := recover(); e != nil {
@@ -378,7 +376,7 @@ func init() {
 	Register(&Checker{
 		ID: "C05", Level: "exploration", Engine: "A",
 		Rule: "case = (grammar, layout, K map-order schedules); for every run whose table yaccgo packs, the documented lookup (offset+symbol, bounds, check vector, default action / default goto) is evaluated for ALL (state, symbol) cells and compared with the dense table of the same run. distinct_nontrivial = distinct packings (hash of the five packed vectors).",
-		NumCases: func(ctx *Ctx) int { return autoCases(ctx, 1500, 40000) },
+		NumCases: func(ctx *Ctx) int { return autoCases(ctx, 5000, 40000) },
 		Gen:      genAutoCase(true, 4, 10), Exec: execC05a,
 		Probes: []string{"probe_default_is_reduce", "probe_default_is_error", "probe_negative_offset", "packed_runs"},
 		Assume: []string{"the lookup mirrored here is the one the generated Action() performs (cross-checked through generated code by the engine-B part)"},
